@@ -7,6 +7,12 @@ statement, instantiated with the wrapper shape and the decoration-time checks th
 (`PedVerif.Gen.CtxMgr`).  The proofs therefore re-check against what the code says now: a cleanup that is no longer in a `finally`,
 a wider `except` around the cleanup `next`, dropped argument forwarding or a changed decoration-time test make them fail.
 
+The user generator may have try / with blocks of its own around its yield and statements behind them (`GenBody`): "the cleanup" in every
+theorem is ALL the code after the yield run as ordinary code (`UserGen.after`), see `guarded_generator_full_cleanup`,
+`exit_journal_whatever_the_block_did` and the witnesses `direct_contextmanager_*` (what handing `f` to contextlib directly would do —
+excluded by the generated fact `no_bypass`).  Decoration time is modelled per interpreter mode (`opt`: python -O), see
+`rejections_are_raise_statements`.
+
 All theorems are for both modes (`m : Mode`), every exception object (kind × identity × cause), every nesting depth and length.
 Hypotheses used: `docForm` (the generator has the documented one-yield form — zero- and multi-yield generators are modelled and
 compared with the implementation but nothing is claimed about them) and `quirkFree` (see `cleanup_exception_wins_*`).
@@ -23,12 +29,86 @@ def a5 : CallArgs := { pos := [5], kw := [(1, 6)] }
 theorem passArgs_id (m : Mode) (args : CallArgs) : passArgs m args = args := by
   cases m <;> simp [passArgs, shape, syncShape, asyncShape]
 
+/-- generated fact: the `except` clauses around the cleanup `next` calls do nothing (`pass`): what the user generator returns is never
+    looked at, let alone taken for a verdict on the pending exception -/
+theorem verdict_false (m : Mode) (g : UserGen) (u u' : UState) : verdict m g u u' = false := by
+  cases m <;> simp [verdict, shape, syncShape, asyncShape]
+
+/-- generated fact: the wrapper yields the object `next(iterator)` returned -/
+theorem yields_next_result (m : Mode) : (shape m).yieldsNextResult = true := by cases m <;> rfl
+
 theorem leave_of_not_converted (m : Mode) (fresh : Nat) (e : Exc) (h : converted m e.kind = false) :
     leave m fresh e = e := by simp [leave, h]
 
+/-- the generator's own blocks journal `piece` events of its own tag only -/
+theorem runActs_pieces (tag : Nat) (l : List Act) : ∀ ev ∈ (runActs tag l).1, ∃ q, ev = .piece tag q := by
+  induction l with
+  | nil => intro ev h; simp [runActs] at h
+  | cons a rest ih =>
+    cases a with
+    | ev q =>
+      intro ev h
+      simp only [runActs, List.mem_cons] at h
+      rcases h with h | h
+      · exact ⟨q, h⟩
+      · exact ih ev h
+    | raise e => intro ev h; simp [runActs] at h
+
+theorem resume_pieces (tag : Nat) (fs : List Frame) : ∀ (p : Option Exc) (tr : List Act),
+    ∀ ev ∈ (resume tag p fs tr).1, ∃ q, ev = .piece tag q := by
+  induction fs with
+  | nil =>
+    intro p tr ev h
+    cases p with
+    | none => exact runActs_pieces tag tr ev (by simpa [resume] using h)
+    | some e => simp [resume] at h
+  | cons f fs ih =>
+    intro p tr ev h
+    cases p with
+    | none =>
+      simp only [resume, List.mem_append] at h
+      rcases h with ((h | h) | h) | h
+      · exact runActs_pieces tag _ ev h
+      · split at h
+        · exact runActs_pieces tag _ ev h
+        · split at h
+          · simp at h
+          · exact runActs_pieces tag _ ev h
+      · exact runActs_pieces tag _ ev h
+      · exact ih _ _ ev h
+    | some e =>
+      simp only [resume, List.mem_append] at h
+      rcases h with ((h | h) | h) | h
+      · simp at h
+      · split at h
+        · simp at h
+        · exact runActs_pieces tag _ ev h
+      · exact runActs_pieces tag _ ev h
+      · exact ih _ _ ev h
+
+/-- the code after the yield journals the cleanup event first, then only pieces of the generator's own blocks -/
+theorem after_events (g : UserGen) : ∃ l, g.after.1 = .cleanup g.tag :: l ∧ ∀ ev ∈ l, ∃ q, ev = .piece g.tag q :=
+  ⟨_, rfl, resume_pieces g.tag g.body.frames g.cleanupExc g.body.trail⟩
+
+theorem count_after_cleanup (g : UserGen) (t : Nat) : count (Ev.isCleanup t) g.after.1 = if g.tag = t then 1 else 0 := by
+  obtain ⟨l, hl, hp⟩ := after_events g
+  have h0 : l.filter (Ev.isCleanup t) = [] := by
+    rw [List.filter_eq_nil_iff]; intro ev hev; obtain ⟨q, rfl⟩ := hp ev hev; simp [Ev.isCleanup]
+  rw [hl]
+  by_cases ht : g.tag = t
+  · simp [count, List.filter, Ev.isCleanup, ht, h0]
+  · have : (g.tag == t) = false := by simpa using ht
+    simp [count, List.filter, Ev.isCleanup, ht, h0, this]
+
+theorem count_after_bind (g : UserGen) (t : Nat) : count (Ev.isBind t) g.after.1 = 0 := by
+  obtain ⟨l, hl, hp⟩ := after_events g
+  have h0 : l.filter (Ev.isBind t) = [] := by
+    rw [List.filter_eq_nil_iff]; intro ev hev; obtain ⟨q, rfl⟩ := hp ev hev; simp [Ev.isBind]
+  rw [hl]; simp [count, List.filter, Ev.isBind, h0]
+
 theorem cleanupBlock_doc (m : Mode) (g : UserGen) (recv : CallArgs) (fresh : Nat) (hd : g.docForm m = true) :
-    ∃ u', cleanupBlock m g recv fresh atYield = ([.cleanup g.tag], g.cleanupExc, u') := by
-  cases m <;> cases hc : g.cleanupExc <;>
+    ∃ u', cleanupBlock m g recv fresh atYield = (g.after.1, g.after.2, u') := by
+  cases m <;> cases hc : g.after.2 <;>
     simp_all [UserGen.docForm, cleanupBlock, shape, syncShape, asyncShape, runBlocks, runNexts, userNext, catches, stopKind,
       converted, atYield]
 
@@ -36,7 +116,7 @@ theorem cleanupBlock_doc (m : Mode) (g : UserGen) (recv : CallArgs) (fresh : Nat
 theorem enter_ok (m : Mode) (g : UserGen) (recv : CallArgs) (fresh : Nat) (hd : g.docForm m = true) (hs : g.setupExc = none)
     (hf : recv.fits = true) :
     wrapNext m g recv fresh .notStarted = ([.setup g.tag recv], .yielded g.value, .suspended atYield) := by
-  simp_all [UserGen.docForm, wrapNext, userNext, atYield]
+  simp_all [UserGen.docForm, wrapNext, userNext, atYield, yields_next_result]
 
 /-- … whose setup raises `e`: the cleanup `next` in the `finally` meets a finished generator, `e` comes out -/
 theorem enter_fail (m : Mode) (g : UserGen) (recv : CallArgs) (fresh : Nat) (e : Exc) (hd : g.docForm m = true)
@@ -44,23 +124,23 @@ theorem enter_fail (m : Mode) (g : UserGen) (recv : CallArgs) (fresh : Nat) (e :
     wrapNext m g recv fresh .notStarted = ([.setup g.tag recv], .raised e, .done) := by
   cases m <;>
     simp_all [UserGen.docForm, wrapNext, userNext, unwind, cleanupBlock, shape, syncShape, asyncShape, runBlocks, runNexts,
-      catches, stopKind, leave]
+      catches, stopKind, leave, verdict]
 
 /-- leaving the block of a documented-form manager: exactly the cleanup event; outcome as for try/finally -/
 theorem exitWith_doc (m : Mode) (g : UserGen) (recv : CallArgs) (fresh : Nat) (fin : Final) (hd : g.docForm m = true)
-    (hq : ∀ c e, g.cleanupExc = some c → fin = .raised e → quirk m c e = false) :
+    (hq : ∀ c e, g.after.2 = some c → fin = .raised e → quirk m c e = false) :
     exitWith m g recv fresh (.suspended atYield) fin =
-      ([.cleanup g.tag], match g.cleanupExc with | some c => .raised c | none => fin) := by
+      (g.after.1, match g.after.2 with | some c => .raised c | none => fin) := by
   obtain ⟨u', hcb⟩ := cleanupBlock_doc m g recv fresh hd
   have hfin : (shape m).cleanupInFinally = true := by cases m <;> rfl
-  cases hc : g.cleanupExc with
+  cases hc : g.after.2 with
   | none =>
     rw [hc] at hcb
     cases fin with
     | normal => simp [exitWith, wrapNext, hcb]
     | left => simp [exitWith, wrapNext, hcb]
     | raised e =>
-      simp only [exitWith, wrapThrow, unwind, hfin, hcb, if_true]
+      simp only [exitWith, wrapThrow, unwind, hfin, hcb, if_true, verdict_false]
       by_cases hk : converted m e.kind = true
       · -- PEP 479 turns the body's Stop(Async)Iteration into a RuntimeError chained to it; `__exit__` recognises it
         have : exitIsStop m e.kind = true := by cases m <;> simpa [exitIsStop, converted] using hk
@@ -119,11 +199,94 @@ theorem exec_eq_spec (m : Mode) (p : Prog) :
         rw [hs, hc, ← hin.2, hf] at this
         simpa using this)
       simp only [enter_ok m g args fresh hd.1.1 hs hd.1.2, hx, hin.1]
-      cases hc : g.cleanupExc <;> simp [hin.2]
+      cases hc : g.after.2 <;> simp [hin.2]
 
 theorem run_eq_spec (m : Mode) (p : Prog) (hd : p.docForm m = true) (hq : p.quirkFree m = true) : run m p = spec p := by
   have := exec_eq_spec m p hd hq 1000
   simp [run, this.1, this.2]
+
+/-! ### the journal needs no `quirkFree`
+
+In the PEP-479 corner (`cleanup_exception_wins_witness`) only the exception the caller sees differs from try/finally semantics; the
+journal — which code ran, how often, in which order — does not.  `exec_journal_eq_spec` therefore asks for the documented form only. -/
+
+/-- how a statement ends, without the exception object -/
+inductive FinClass where
+  | normal | left | raised
+deriving DecidableEq, Repr
+
+def Final.cls : Final → FinClass
+  | .normal => .normal
+  | .left => .left
+  | .raised _ => .raised
+
+theorem cls_normal_iff (f : Final) : f.cls = .normal ↔ f = .normal := by cases f <;> simp [Final.cls]
+
+/-- leaving the block of a documented-form manager, ANY block outcome, no guard: the journal is the code after the yield, and the `with`
+    statement ends the way try/finally semantics says (normally / by return-break / with an exception) — which exception is the
+    business of `exitWith_doc` -/
+theorem exitWith_doc_any (m : Mode) (g : UserGen) (recv : CallArgs) (fresh : Nat) (fin : Final) (hd : g.docForm m = true) :
+    (exitWith m g recv fresh (.suspended atYield) fin).1 = g.after.1
+    ∧ (exitWith m g recv fresh (.suspended atYield) fin).2.cls = (match g.after.2 with | some c => Final.raised c | none => fin).cls := by
+  obtain ⟨u', hcb⟩ := cleanupBlock_doc m g recv fresh hd
+  have hfin : (shape m).cleanupInFinally = true := by cases m <;> rfl
+  have hdec : ∀ (e exc : Exc), exitDecision m fresh e (.raised exc) ≠ .ok true := by
+    intro e exc
+    simp only [exitDecision]
+    repeat' split
+    all_goals simp
+  have hcls : ∀ (e exc : Exc), (match exitDecision m fresh e (.raised exc) with
+      | .ok true => Final.normal | .ok false => .raised e | .error e' => .raised e').cls = .raised := by
+    intro e exc
+    have := hdec e exc
+    cases hx : exitDecision m fresh e (.raised exc) with
+    | error e' => rfl
+    | ok b => cases b with
+      | false => rfl
+      | true => exact absurd hx this
+  cases fin with
+  | normal => cases hc : g.after.2 <;> simp [exitWith, wrapNext, hcb, hc, Final.cls]
+  | left => cases hc : g.after.2 <;> simp [exitWith, wrapNext, hcb, hc, Final.cls]
+  | raised e =>
+    cases hc : g.after.2 with
+    | none =>
+      simp only [exitWith, wrapThrow, unwind, hfin, hcb, hc, verdict_false, if_true, Bool.false_eq_true, if_false]
+      exact ⟨trivial, hcls e (leave m fresh e)⟩
+    | some c =>
+      simp only [exitWith, wrapThrow, unwind, hfin, hcb, hc, if_true]
+      exact ⟨trivial, hcls e (leave m fresh c)⟩
+
+/-- **the journal**, for every program over documented-form generators — no `quirkFree`: the model journals exactly what try/finally
+    semantics journals, and every statement ends normally / by return-break / with an exception exactly when it does there -/
+theorem exec_journal_eq_spec (m : Mode) (p : Prog) :
+    p.docForm m = true → ∀ fresh, (exec m p fresh).1 = (spec p).1 ∧ (exec m p fresh).2.1.cls = (spec p).2.cls := by
+  induction p with
+  | body n b => intro _ fresh; simp [exec, spec]
+  | seq p q ihp ihq =>
+    intro hd fresh
+    simp only [Prog.docForm, Bool.and_eq_true] at hd
+    have hp := ihp hd.1 fresh
+    have hq2 := ihq hd.2 (exec m p fresh).2.2
+    simp only [exec, spec]
+    cases he : (exec m p fresh).2.1 <;> cases hsp : (spec p).2 <;> simp_all [Final.cls]
+  | withCm g args inner ih =>
+    intro hd fresh
+    simp only [Prog.docForm, Bool.and_eq_true] at hd
+    have hin := ih hd.2 (fresh + 5)
+    simp only [exec, spec, passArgs_id]
+    cases hs : g.setupExc with
+    | some e => simp [enter_fail m g args fresh e hd.1.1 hs hd.1.2, Final.cls]
+    | none =>
+      have hx := exitWith_doc_any m g args fresh (exec m inner (fresh + 5)).2.1 hd.1.1
+      simp only [enter_ok m g args fresh hd.1.1 hs hd.1.2, hx.1, hin.1]
+      refine ⟨by simp, ?_⟩
+      rw [hx.2]
+      cases hc : g.after.2 with
+      | some c => rfl
+      | none => exact hin.2
+
+theorem run_journal_eq_spec (m : Mode) (p : Prog) (hd : p.docForm m = true) : (run m p).1 = (spec p).1 := by
+  simp [run, (exec_journal_eq_spec m p hd 1000).1]
 
 /-! ## The clauses of the property, one theorem each
 
@@ -131,66 +294,83 @@ theorem run_eq_spec (m : Mode) (p : Prog) (hd : p.docForm m = true) (hq : p.quir
 consideration; `m` ranges over sync and async. -/
 
 /-- *cleanup exactly once and after the body*: whatever the block does (normal end, return/break, any exception — `inner` is
-    arbitrary), the journal of `with g(args) as v: inner` is setup, bind, the block's own journal, cleanup: the code after the
-    yield runs once, and it is the last event. -/
+    arbitrary), the journal of `with g(args) as v: inner` is setup, bind, the block's own journal, then the code after the yield: it
+    runs once, and last.  Documented form only — NO `quirkFree`: also in the PEP-479 corner (`cleanup_exception_wins_witness`) the
+    cleanup runs exactly once, only the exception the caller sees is contextlib's choice there. -/
 theorem cleanup_once_after_body (m : Mode) (g : UserGen) (args : CallArgs) (inner : Prog)
-    (hd : (Prog.withCm g args inner).docForm m = true) (hq : (Prog.withCm g args inner).quirkFree m = true)
-    (hs : g.setupExc = none) :
-    (run m (.withCm g args inner)).1 = [.setup g.tag args, .bind g.tag g.value] ++ (run m inner).1 ++ [.cleanup g.tag] := by
-  simp only [Prog.docForm, Prog.quirkFree, Bool.and_eq_true] at hd hq
-  rw [run_eq_spec m _ (by simp [Prog.docForm, hd]) (by simp [Prog.quirkFree, hq]), run_eq_spec m inner hd.2 hq.1]
+    (hd : (Prog.withCm g args inner).docForm m = true) (hs : g.setupExc = none) :
+    (run m (.withCm g args inner)).1 = [.setup g.tag args, .bind g.tag g.value] ++ (run m inner).1 ++ g.after.1 := by
+  have hdi : inner.docForm m = true := by simp only [Prog.docForm, Bool.and_eq_true] at hd; exact hd.2
+  rw [run_journal_eq_spec m _ hd, run_journal_eq_spec m inner hdi]
   simp [spec, hs]
 
-/-- the leaf instance, with the count spelled out: for every body outcome and every cleanup outcome the journal is
-    `[setup, bind, body, cleanup]`; the cleanup event occurs exactly once and after the body event -/
+/-- the leaf instance, with the count spelled out: for every body outcome and every cleanup outcome (no guard) the journal is
+    `[setup, bind, body]` followed by the code after the yield (the cleanup event, then the pieces of the generator's own blocks); the
+    cleanup event occurs exactly once and after the body event -/
 theorem cleanup_exactly_once_leaf (m : Mode) (g : UserGen) (args : CallArgs) (n : Nat) (b : BodyOut) (hd : g.docForm m = true)
-    (hf : args.fits = true) (hs : g.setupExc = none)
-    (hq : ∀ c e, g.cleanupExc = some c → b = .raises e → quirk m c e = false) :
-    (run m (.withCm g args (.body n b))).1 = [.setup g.tag args, .bind g.tag g.value, .body n, .cleanup g.tag]
-    ∧ count (fun ev => decide (ev = .cleanup g.tag)) (run m (.withCm g args (.body n b))).1 = 1 := by
-  have hq' : (Prog.withCm g args (.body n b)).quirkFree m = true := by
-    simp only [Prog.quirkFree, spec, hs, Bool.true_and]
-    cases hc : g.cleanupExc with
-    | none => rfl
-    | some c =>
-      cases b with
-      | raises e => simp [BodyOut.final, hq c e hc rfl]
-      | _ => rfl
-  have h := cleanup_once_after_body m g args (.body n b) (by simp [Prog.docForm, hd, hf]) hq' hs
+    (hf : args.fits = true) (hs : g.setupExc = none) :
+    (run m (.withCm g args (.body n b))).1 = [.setup g.tag args, .bind g.tag g.value, .body n] ++ g.after.1
+    ∧ g.after.1.head? = some (.cleanup g.tag)
+    ∧ count (Ev.isCleanup g.tag) (run m (.withCm g args (.body n b))).1 = 1 := by
+  have h := cleanup_once_after_body m g args (.body n b) (by simp [Prog.docForm, hd, hf]) hs
   have hb : (run m (.body n b)).1 = [.body n] := by simp [run, exec]
   rw [h, hb]
-  simp [count]
+  refine ⟨by simp, by simp [UserGen.after], ?_⟩
+  have := count_after_cleanup g g.tag
+  simp only [count, List.filter_append, List.length_append] at this ⊢
+  simp [List.filter, Ev.isCleanup, this]
 
-/-- early exit (`return` / `break` inside the block) is, at the `with` level, the same as normal completion:
-    `__exit__(None, None, None)` is called in both cases — same journal, and control keeps leaving (`left`) unless the cleanup raises -/
-theorem early_exit_like_normal (m : Mode) (g : UserGen) (args : CallArgs) (n fresh : Nat) :
-    (exec m (.withCm g args (.body n .early)) fresh).1 = (exec m (.withCm g args (.body n .normal)) fresh).1
-    ∧ ((exec m (.withCm g args (.body n .normal)) fresh).2.1 = .normal →
-        (exec m (.withCm g args (.body n .early)) fresh).2.1 = .left) := by
-  simp only [exec, BodyOut.final, exitWith]
-  split <;> simp
-  split <;> simp
+/-- `return` / `break` seen from the enclosing statement: a normal end becomes "control keeps leaving", everything else stays -/
+def Final.toLeft : Final → Final
+  | .normal => .left
+  | f => f
+
+/-- `__exit__(None, None, None)` is what both a normal end and `return` / `break` call: same journal; same outcome, except that control
+    keeps leaving.  Any generator (also outside the documented form), any state of its wrapper — also when the cleanup raises. -/
+theorem exit_early_like_normal (m : Mode) (g : UserGen) (recv : CallArgs) (fresh : Nat) (w : WState) :
+    (exitWith m g recv fresh w .left).1 = (exitWith m g recv fresh w .normal).1
+    ∧ (exitWith m g recv fresh w .left).2 = (exitWith m g recv fresh w .normal).2.toLeft := by
+  simp only [exitWith]
+  split <;> simp [Final.toLeft]
+
+/-- early exit (`return` / `break` somewhere inside the block) is, at the `with` level, the same as normal completion: for ARBITRARY
+    blocks `inner` (ends normally) and `inner'` (same journal, ends by return / break), any manager, any arguments: same journal, and the
+    `with` statement ends the same way with "normal" replaced by "control keeps leaving" — in particular a raising cleanup raises in both -/
+theorem early_exit_like_normal (m : Mode) (g : UserGen) (args : CallArgs) (inner inner' : Prog) (fresh : Nat)
+    (hj : (exec m inner' (fresh + 5)).1 = (exec m inner (fresh + 5)).1)
+    (hn : (exec m inner (fresh + 5)).2.1 = .normal) (hl : (exec m inner' (fresh + 5)).2.1 = .left) :
+    (exec m (.withCm g args inner') fresh).1 = (exec m (.withCm g args inner) fresh).1
+    ∧ (exec m (.withCm g args inner') fresh).2.1 = (exec m (.withCm g args inner) fresh).2.1.toLeft := by
+  simp only [exec]
+  split
+  · simp [Final.toLeft]
+  · simp [Final.toLeft]
+  · rename_i evs v w _
+    have h := exit_early_like_normal m g (passArgs m args) fresh w
+    simp [hj, hn, hl, h.1, h.2]
 
 /-- *a body exception propagates unchanged unless the cleanup raises*: with a cleanup that does not raise, the `with` statement ends
     exactly as its block ended — the same exception object (kind, identity), for every kind incl. BaseException subclasses,
     GeneratorExit, Stop(Async)Iteration, RuntimeError, CancelledError; also `return`/`break` and normal end are passed on. -/
 theorem body_outcome_unchanged (m : Mode) (g : UserGen) (args : CallArgs) (inner : Prog)
     (hd : (Prog.withCm g args inner).docForm m = true) (hqi : inner.quirkFree m = true)
-    (hs : g.setupExc = none) (hc : g.cleanupExc = none) :
+    (hs : g.setupExc = none) (hc : g.after.2 = none) :
     (run m (.withCm g args inner)).2 = (run m inner).2 := by
   simp only [Prog.docForm, Bool.and_eq_true] at hd
   rw [run_eq_spec m _ (by simp [Prog.docForm, hd]) (by simp [Prog.quirkFree, hqi, hs, hc]), run_eq_spec m inner hd.2 hqi]
   simp [spec, hs, hc]
 
 theorem body_exception_unchanged (m : Mode) (g : UserGen) (args : CallArgs) (n : Nat) (e : Exc) (hd : g.docForm m = true)
-    (hf : args.fits = true) (hs : g.setupExc = none) (hc : g.cleanupExc = none) :
+    (hf : args.fits = true) (hs : g.setupExc = none) (hc : g.after.2 = none) :
     (run m (.withCm g args (.body n (.raises e)))).2 = .raised e := by
   rw [body_outcome_unchanged m g args _ (by simp [Prog.docForm, hd, hf]) rfl hs hc]
   simp [run, exec, BodyOut.final]
 
 /-- *what the generator returns after its cleanup is no verdict on the block's exception*: a decorated generator may end with
     `return <anything>` (truthy, falsy, nothing) — journal and outcome of the `with` statement are the same for every returned value;
-    in particular (with `body_exception_unchanged`) a body exception propagates unchanged past a cleanup that returns a truthy value -/
+    in particular (with `body_exception_unchanged`) a body exception propagates unchanged past a cleanup that returns a truthy value.
+    Rests on the generated fact `handlersPass` (`verdict_false`): the `except` clauses around the cleanup `next` are `pass`; a handler
+    that does something could read `StopIteration.value`, and the model then lets a truthy value swallow the pending exception (`verdict`). -/
 theorem cleanup_return_value_ignored (m : Mode) (g : UserGen) (r : Ret) (args : CallArgs) (inner : Prog) (fresh : Nat) :
     exec m (.withCm { g with returns := r } args inner) fresh = exec m (.withCm g args inner) fresh := by
   have hu : ∀ recv s, userNext { g with returns := r } recv s = userNext g recv s := by intro recv s; rfl
@@ -207,7 +387,7 @@ theorem cleanup_return_value_ignored (m : Mode) (g : UserGen) (r : Ret) (args : 
   have hc : ∀ recv fr u, cleanupBlock m { g with returns := r } recv fr u = cleanupBlock m g recv fr u := by
     intro recv fr u; simp only [cleanupBlock, hb]
   have hw : ∀ recv fr e u, unwind m { g with returns := r } recv fr e u = unwind m g recv fr e u := by
-    intro recv fr e u; simp only [unwind, hc]
+    intro recv fr e u; simp only [unwind, hc, verdict_false]
   have hwn : ∀ recv fr w, wrapNext m { g with returns := r } recv fr w = wrapNext m g recv fr w := by
     intro recv fr w; cases w <;> simp only [wrapNext, hu, hw, hc]
   have hwt : ∀ recv fr v w, wrapThrow m { g with returns := r } recv fr v w = wrapThrow m g recv fr v w := by
@@ -217,7 +397,7 @@ theorem cleanup_return_value_ignored (m : Mode) (g : UserGen) (r : Ret) (args : 
   simp only [exec, hwn, hx]
 
 theorem body_exception_unchanged_whatever_is_returned (m : Mode) (g : UserGen) (r : Ret) (args : CallArgs) (n : Nat) (e : Exc)
-    (hd : g.docForm m = true) (hf : args.fits = true) (hs : g.setupExc = none) (hc : g.cleanupExc = none) :
+    (hd : g.docForm m = true) (hf : args.fits = true) (hs : g.setupExc = none) (hc : g.after.2 = none) :
     (run m (.withCm { g with returns := r } args (.body n (.raises e)))).2 = .raised e := by
   have h := cleanup_return_value_ignored m g r args (.body n (.raises e)) 1000
   simp only [run, h]
@@ -226,30 +406,35 @@ theorem body_exception_unchanged_whatever_is_returned (m : Mode) (g : UserGen) (
 /-- *the cleanup's exception wins* — full statement (no guard).  It is **false** for contextlib (see the witness below). -/
 def cleanup_exception_wins_full : Prop :=
   ∀ (m : Mode) (g : UserGen) (args : CallArgs) (n : Nat) (b : BodyOut) (c : Exc), g.docForm m = true → args.fits = true → g.setupExc = none →
-    g.cleanupExc = some c → (run m (.withCm g args (.body n b))).2 = .raised c
+    g.after.2 = some c → (run m (.withCm g args (.body n b))).2 = .raised c
 
 /-- … proved under the explicit guard `quirk m c e = false`: the cleanup does not raise a RuntimeError chained by hand
     (`raise … from`) to the very Stop(Async)Iteration object the block raised -/
 theorem cleanup_exception_wins_partial (m : Mode) (g : UserGen) (args : CallArgs) (inner : Prog) (c : Exc)
     (hd : (Prog.withCm g args inner).docForm m = true) (hq : (Prog.withCm g args inner).quirkFree m = true)
-    (hs : g.setupExc = none) (hc : g.cleanupExc = some c) :
+    (hs : g.setupExc = none) (hc : g.after.2 = some c) :
     (run m (.withCm g args inner)).2 = .raised c := by
   rw [run_eq_spec m _ hd hq]; simp [spec, hs, hc]
+
+-- … while the JOURNAL of the witness below is the ordinary one (`cleanup_once_after_body` needs no guard): cleanup exactly once, after the body
+example : (run .sync (.withCm ⟨1, none, 1, some ⟨.runtimeError, 8, some 7⟩, 3, .none, {}⟩ a5 (.body 0 (.raises ⟨.stopIteration, 7, none⟩)))).1
+    = [.setup 1 a5, .bind 1 3, .body 0, .cleanup 1] := by decide
 
 /-- the complement really is violated (by contextlib's PEP-479 special case, which the library inherits): the block raises the
     StopIteration object 7, the cleanup raises `RuntimeError(…) from <object 7>` — the caller gets object 7, not the cleanup's exception -/
 theorem cleanup_exception_wins_witness :
-    let g : UserGen := ⟨1, none, 1, some ⟨.runtimeError, 8, some 7⟩, 3, .none⟩
+    let g : UserGen := ⟨1, none, 1, some ⟨.runtimeError, 8, some 7⟩, 3, .none, {}⟩
     g.docForm .sync = true ∧ (run .sync (.withCm g a5 (.body 0 (.raises ⟨.stopIteration, 7, none⟩)))).2 = .raised ⟨.stopIteration, 7, none⟩ := by
   decide
 
 theorem cleanup_exception_wins_full_false : ¬ cleanup_exception_wins_full := by
   intro h
-  have := h .sync ⟨1, none, 1, some ⟨.runtimeError, 8, some 7⟩, 3, .none⟩ a5 0 (.raises ⟨.stopIteration, 7, none⟩) ⟨.runtimeError, 8, some 7⟩
+  have := h .sync ⟨1, none, 1, some ⟨.runtimeError, 8, some 7⟩, 3, .none, {}⟩ a5 0 (.raises ⟨.stopIteration, 7, none⟩) ⟨.runtimeError, 8, some 7⟩
     (by decide) rfl rfl rfl
   revert this; decide
 
-/-- *`as` binds the yielded value*: the block is entered with exactly the object the generator yielded -/
+/-- *`as` binds the yielded value*: the block is entered with exactly the object the generator yielded (generated fact
+    `yieldsNextResult`: the wrapper yields what `next(iterator)` returned) -/
 theorem as_binds_yielded (m : Mode) (g : UserGen) (args : CallArgs) (inner : Prog) (fresh : Nat) (hd : g.docForm m = true)
     (hf : args.fits = true) (hs : g.setupExc = none) :
     (exec m (.withCm g args inner) fresh).1.take 2 = [.setup g.tag args, .bind g.tag g.value] := by
@@ -287,12 +472,30 @@ theorem unbindable_call_raises (m : Mode) (g : UserGen) (args : CallArgs) (inner
 
 /-- *decoration-time rejection*: `safe_contextmanager` accepts exactly generator functions, `safe_async_contextmanager` exactly async
     generator functions (and hands `wrapper` to the matching contextlib factory); plain functions, coroutine functions and the
-    generator kind of the other flavour raise at decoration time — `AssertionError` whenever `f.__name__` exists -/
-theorem decoration_dispatch (m : Mode) (k uk : FnKind) (hasName : Bool) :
-    (mustAccept m k = true → decorate m k uk hasName = .manager (expectedWrap m)) ∧
-    (mustAccept m k = false → (decorate m k uk hasName).isRejected = true) ∧
-    (mustAccept m k = false → hasName = true → decorate m k uk hasName = .rejected "AssertionError") := by
-  cases m <;> cases k <;> cases uk <;> cases hasName <;> decide
+    generator kind of the other flavour raise at decoration time — `AssertionError` whenever `f.__name__` exists — in every
+    interpreter mode (`opt`: python -O / -OO / PYTHONOPTIMIZE, where `assert` statements do not exist) -/
+theorem decoration_dispatch (m : Mode) (k uk : FnKind) (hasName opt : Bool) :
+    (mustAccept m k = true → decorate m k uk hasName opt = .manager (expectedWrap m)) ∧
+    (mustAccept m k = false → (decorate m k uk hasName opt).isRejected = true) ∧
+    (mustAccept m k = false → hasName = true → decorate m k uk hasName opt = .rejected "AssertionError") := by
+  cases m <;> cases k <;> cases uk <;> cases hasName <;> cases opt <;> decide
+
+/-- generated fact, re-read on every run: the decoration-time rejections are `raise` statements (under `if`), not `assert` statements
+    and not guarded by `__debug__` — the chain around the inner function does the same with and without `python -O` -/
+theorem rejections_are_raise_statements (m : Mode) (k : FnKind) (o : Nat → Bool) : decoPre m k o true = decoPre m k o false := by
+  cases m <;> cases k <;> first | rfl | simp [decoPre, syncPre, asyncPre, isGen, isAsyncGen, isCoroutine]
+
+/-- generated fact: every test of that chain is an inspect kind test of `f` — no other predicate of `f` (its source text, its
+    attributes, …) decides what the decorator returns -/
+theorem decoration_chain_is_kind_tests_only (m : Mode) (k : FnKind) (o : Nat → Bool) (opt : Bool) :
+    decoPre m k o opt = decoPre m k (fun _ => false) opt := by
+  cases m <;> cases k <;> cases opt <;> first | rfl | simp [decoPre, syncPre, asyncPre, isGen, isAsyncGen, isCoroutine]
+
+/-- generated fact: a call of the decorator ends in a `raise` or in `return factory(wrapper)` — there is no other `return`, so that no
+    function reaches contextlib without the protecting wrapper (see `direct_contextmanager_skips_trailing_cleanup` for what that would mean) -/
+theorem no_bypass (m : Mode) (k : FnKind) (o : Nat → Bool) (opt : Bool) :
+    decoPre m k o opt = .build ∨ ∃ r, decoPre m k o opt = .reject r := by
+  cases m <;> cases k <;> cases opt <;> simp [decoPre, syncPre, asyncPre, isGen, isAsyncGen, isCoroutine]
 
 /-- generated fact, re-read on every run: the kind tests are applied to the object handed to the decorator, not to `inspect.unwrap` of
     it — what counts is what the callable IS (a `functools.wraps`-decorated plain function around a generator function is a plain
@@ -305,17 +508,202 @@ theorem source_shape :
     syncShape.wrapperIsAsync = false ∧ asyncShape.wrapperIsAsync = true
     ∧ syncShape.forwardsArgs = true ∧ asyncShape.forwardsArgs = true := by decide
 
+/-! ## Generators that protect part of their cleanup themselves (try / with blocks of their own around the yield) -/
+
+/-- the journal of leaving the block does not depend on how the block ended: it is the code after the yield run as ordinary code, for
+    every block outcome — normal end, return / break, ANY exception object.  No guard on the outcome: the generator's own `except`
+    clauses never see the exception of the with-block, its `finally` clauses and the statements behind its blocks always run -/
+theorem exit_journal_whatever_the_block_did (m : Mode) (g : UserGen) (recv : CallArgs) (fresh : Nat) (fin : Final)
+    (hd : g.docForm m = true) : (exitWith m g recv fresh (.suspended atYield) fin).1 = g.after.1 := by
+  obtain ⟨u', hcb⟩ := cleanupBlock_doc m g recv fresh hd
+  have hfin : (shape m).cleanupInFinally = true := by cases m <;> rfl
+  cases fin with
+  | normal => cases hc : g.after.2 <;> simp [exitWith, wrapNext, hcb, hc]
+  | left => cases hc : g.after.2 <;> simp [exitWith, wrapNext, hcb, hc]
+  | raised e => cases hc : g.after.2 <;> simp [exitWith, wrapThrow, unwind, hfin, hcb, hc, verdict_false]
+
+def Act.isEv : Act → Bool
+  | .ev _ => true
+  | .raise _ => false
+
+/-- no statement of the generator's blocks on the exception-free path raises -/
+def GenBody.quiet (b : GenBody) : Bool :=
+  b.frames.all (fun f => f.rest.all Act.isEv && f.orelse.all Act.isEv && f.fin.all Act.isEv) && b.trail.all Act.isEv
+
+def piecesOf (tag : Nat) (l : List Act) : List Ev := l.filterMap (fun a => match a with | .ev p => some (.piece tag p) | .raise _ => none)
+
+/-- every statement after the yield that is not inside an `except` clause, in source order -/
+def normalPath (tag : Nat) (b : GenBody) : List Ev :=
+  b.frames.flatMap (fun f => piecesOf tag f.rest ++ piecesOf tag f.orelse ++ piecesOf tag f.fin) ++ piecesOf tag b.trail
+
+theorem runActs_quiet (tag : Nat) (l : List Act) (h : l.all Act.isEv = true) : runActs tag l = (piecesOf tag l, none) := by
+  induction l with
+  | nil => rfl
+  | cons a rest ih =>
+    cases a with
+    | ev p =>
+      have hr : rest.all Act.isEv = true := by simpa [Act.isEv] using h
+      simp [runActs, ih hr, piecesOf]
+    | raise e => simp [Act.isEv] at h
+
+theorem resume_quiet (tag : Nat) (fs : List Frame) (tr : List Act)
+    (h : (GenBody.mk fs tr).quiet = true) : resume tag none fs tr = (normalPath tag ⟨fs, tr⟩, none) := by
+  induction fs with
+  | nil =>
+    have ht : tr.all Act.isEv = true := by simpa [GenBody.quiet] using h
+    simp [resume, normalPath, runActs_quiet tag tr ht]
+  | cons f fs ih =>
+    simp only [GenBody.quiet, List.all_cons, Bool.and_eq_true] at h
+    obtain ⟨⟨⟨⟨h1, h2⟩, h3⟩, h4⟩, h5⟩ := h
+    have ih' := ih (by simp [GenBody.quiet, h4, h5])
+    simp [resume, runActs_quiet tag _ h1, runActs_quiet tag _ h2, runActs_quiet tag _ h3, ih', normalPath]
+
+/-- **a generator with its own try / with blocks around the yield**: whatever the block does — any program `inner`, ending normally, by
+    return / break or with any exception — every statement after the yield that is not inside one of the generator's `except` clauses
+    (rest of the try bodies, else and finally clauses, the statements BEHIND the blocks) runs exactly once, in source order, after the
+    block; no `except` clause of the generator runs; and the block's outcome — the same exception object — reaches the caller -/
+theorem guarded_generator_full_cleanup (m : Mode) (g : UserGen) (args : CallArgs) (inner : Prog)
+    (hy : g.yields = 1) (hf : args.fits = true) (hs : g.setupExc = none) (hc : g.cleanupExc = none) (hb : g.body.quiet = true)
+    (hdi : inner.docForm m = true) (hqi : inner.quirkFree m = true) :
+    run m (.withCm g args inner)
+      = ([.setup g.tag args, .bind g.tag g.value] ++ (run m inner).1 ++ (.cleanup g.tag :: normalPath g.tag g.body), (run m inner).2) := by
+  have ha : g.after = (.cleanup g.tag :: normalPath g.tag g.body, none) := by
+    simp [UserGen.after, hc, resume_quiet g.tag g.body.frames g.body.trail hb]
+  have hd : g.docForm m = true := by simp [UserGen.docForm, hy, hs, ha]
+  rw [run_eq_spec m _ (by simp [Prog.docForm, hd, hf, hdi]) (by simp [Prog.quirkFree, hqi, hs, ha]), run_eq_spec m inner hdi hqi]
+  simp [spec, hs, ha]
+
+/-- `try: yield v finally: <piece 1>` followed by `<piece 2>` -/
+def gGuarded : UserGen :=
+  { tag := 1, setupExc := none, yields := 1, cleanupExc := none, value := 41,
+    body := { frames := [{ fin := [.ev 1], finExc := [.ev 1] }], trail := [.ev 2] } }
+/-- `try: yield v except Exception: <piece 3> finally: <piece 1>` followed by `<piece 2>` -/
+def gCatching : UserGen :=
+  { tag := 1, setupExc := none, yields := 1, cleanupExc := none, value := 41,
+    body := { frames := [{ handlers := [⟨.exception, [.ev 3], false⟩], fin := [.ev 1], finExc := [.ev 1] }], trail := [.ev 2] } }
+
+/-- why `no_bypass` matters: `contextlib.contextmanager` applied to such a generator function ITSELF throws the block's exception into
+    it — only the `finally` piece runs, neither the statement after the yield nor the statement behind the block; through the
+    library's wrapper everything runs and the same exception object comes out -/
+theorem direct_contextmanager_skips_trailing_cleanup :
+    gGuarded.docForm .sync = true
+    ∧ directExit .sync gGuarded 1000 (.raised ⟨.baseExc, 7, none⟩) = ([.piece 1 1], .raised ⟨.baseExc, 7, none⟩)
+    ∧ exitWith .sync gGuarded a5 1000 (.suspended atYield) (.raised ⟨.baseExc, 7, none⟩)
+        = ([.cleanup 1, .piece 1 1, .piece 1 2], .raised ⟨.baseExc, 7, none⟩) := by decide
+
+/-- … and an `except` clause next to the yield sees and swallows the block's exception (the `with` statement ends normally) -/
+theorem direct_contextmanager_lets_handler_swallow :
+    directExit .sync gCatching 1000 (.raised ⟨.exception, 7, none⟩) = ([.piece 1 3, .piece 1 1, .piece 1 2], .normal)
+    ∧ exitWith .sync gCatching a5 1000 (.suspended atYield) (.raised ⟨.exception, 7, none⟩)
+        = ([.cleanup 1, .piece 1 1, .piece 1 2], .raised ⟨.exception, 7, none⟩) := by decide
+
+-- the hypotheses of `guarded_generator_full_cleanup` are met by both; nested in itself with a KeyboardInterrupt-like object in the block
+example : gGuarded.body.quiet = true ∧ gCatching.body.quiet = true
+    ∧ run .sync (.withCm gGuarded a5 (.withCm gCatching a5 (.body 0 (.raises ⟨.baseExc, 7, none⟩))))
+      = ([.setup 1 a5, .bind 1 41, .setup 1 a5, .bind 1 41, .body 0, .cleanup 1, .piece 1 1, .piece 1 2, .cleanup 1, .piece 1 1, .piece 1 2],
+         .raised ⟨.baseExc, 7, none⟩) := by decide
+-- a cleanup statement that raises inside the generator's own try: its own `except` clause handles it (that is the generator's business)
+example : run .async (.withCm { gCatching with cleanupExc := some ⟨.exception, 9, none⟩ } a5 (.body 0 (.raises ⟨.cancelled, 7, none⟩)))
+      = ([.setup 1 a5, .bind 1 41, .body 0, .cleanup 1, .piece 1 3, .piece 1 1, .piece 1 2], .raised ⟨.cancelled, 7, none⟩) := by decide
+
+/-! ## Generators outside the documented form: no yield, more than one yield -/
+
+/-- a generator function that finishes without yielding: `with` raises a RuntimeError at entry (the wrapper's `next(iterator)` raises
+    Stop(Async)Iteration, which cannot leave the wrapper's frame: PEP 479), after the setup, without block and without further events -/
+theorem no_yield_is_runtime_error (m : Mode) (g : UserGen) (args : CallArgs) (inner : Prog) (fresh : Nat)
+    (hy : g.yields = 0) (hs : g.setupExc = none) (hf : args.fits = true) :
+    (exec m (.withCm g args inner) fresh).1 = [.setup g.tag args]
+    ∧ (exec m (.withCm g args inner) fresh).2.1 = .raised ⟨.runtimeError, fresh + 2, some fresh⟩ := by
+  cases m <;>
+    simp [exec, passArgs_id, wrapNext, userNext, hf, hs, hy, unwind, cleanupBlock, shape, syncShape, asyncShape, runBlocks, runNexts,
+      catches, stopKind, leave, converted, verdict]
+
+/-- a generator with MORE than one yield: the wrapper's cleanup is one `next(iterator)` — it runs the code between the first and the
+    second yield and leaves the generator suspended there: the code after the second yield never runs (no `extra` event), and the `with`
+    statement behaves exactly as for the generator cut after its first cleanup section.  (contextlib itself would raise "generator
+    didn't stop"; the library's wrapper does not notice.) -/
+theorem extra_yield_never_resumed (m : Mode) (g : UserGen) (args : CallArgs) (inner : Prog) (fresh : Nat) (hy : 2 ≤ g.yields) :
+    (exec m (.withCm g args inner) fresh).1 = (exec m (.withCm { g with yields := 1 } args inner) fresh).1
+    ∧ (exec m (.withCm g args inner) fresh).2.1 = (exec m (.withCm { g with yields := 1 } args inner) fresh).2.1 := by
+  have h0 : 0 < g.yields := by omega
+  have h1 : 1 < g.yields := by omega
+  have hcb : ∀ recv, (cleanupBlock m g recv fresh atYield).1 = (cleanupBlock m { g with yields := 1 } recv fresh atYield).1
+      ∧ (cleanupBlock m g recv fresh atYield).2.1 = (cleanupBlock m { g with yields := 1 } recv fresh atYield).2.1 := by
+    intro recv
+    have ha : UserGen.after { g with yields := 1 } = g.after := rfl
+    cases m <;> cases hc : g.after.2 <;>
+      simp [cleanupBlock, shape, syncShape, asyncShape, runBlocks, runNexts, userNext, atYield, ha, hc, h1, catches, stopKind]
+  have hx : ∀ recv fin, exitWith m g recv fresh (.suspended atYield) fin = exitWith m { g with yields := 1 } recv fresh (.suspended atYield) fin := by
+    intro recv fin
+    have hfin : (shape m).cleanupInFinally = true := by cases m <;> rfl
+    obtain ⟨c1, c2⟩ := hcb recv
+    cases fin with
+    | normal =>
+      simp only [exitWith, wrapNext]
+      rcases hA : cleanupBlock m g recv fresh atYield with ⟨ea, xa, ua⟩
+      rcases hB : cleanupBlock m { g with yields := 1 } recv fresh atYield with ⟨eb, xb, ub⟩
+      rw [hA, hB] at c1 c2; simp only at c1 c2; subst c1; subst c2
+      cases xa <;> rfl
+    | left =>
+      simp only [exitWith, wrapNext]
+      rcases hA : cleanupBlock m g recv fresh atYield with ⟨ea, xa, ua⟩
+      rcases hB : cleanupBlock m { g with yields := 1 } recv fresh atYield with ⟨eb, xb, ub⟩
+      rw [hA, hB] at c1 c2; simp only at c1 c2; subst c1; subst c2
+      cases xa <;> rfl
+    | raised e =>
+      simp only [exitWith, wrapThrow, unwind, hfin, if_true]
+      rcases hA : cleanupBlock m g recv fresh atYield with ⟨ea, xa, ua⟩
+      rcases hB : cleanupBlock m { g with yields := 1 } recv fresh atYield with ⟨eb, xb, ub⟩
+      rw [hA, hB] at c1 c2; simp only at c1 c2; subst c1; subst c2
+      cases xa <;> simp [verdict_false]
+  have hen : wrapNext m g (passArgs m args) fresh .notStarted = wrapNext m { g with yields := 1 } (passArgs m args) fresh .notStarted := by
+    cases hs : g.setupExc with
+    | none => simp [wrapNext, userNext, hs, h0]
+    | some e =>
+      cases m <;>
+        simp [wrapNext, userNext, hs, unwind, cleanupBlock, shape, syncShape, asyncShape, runBlocks, runNexts, catches, stopKind, verdict]
+  have hst : ∀ evs v w, wrapNext m g (passArgs m args) fresh .notStarted = (evs, .yielded v, w) → w = .suspended atYield := by
+    intro evs v w h
+    by_cases hf : (passArgs m args).fits = true
+    · cases hs : g.setupExc with
+      | none =>
+        simp only [wrapNext, userNext, hs, h0, hf] at h
+        simp at h
+        exact h.2.2.symm
+      | some e =>
+        exfalso
+        revert h
+        cases m <;>
+          simp [wrapNext, userNext, hs, hf, unwind, cleanupBlock, shape, syncShape, asyncShape, runBlocks, runNexts, catches, stopKind, verdict]
+    · simp [wrapNext, hf] at h
+  simp only [exec, ← hen]
+  rcases hw : wrapNext m g (passArgs m args) fresh .notStarted with ⟨evs, res, w⟩
+  cases res with
+  | yielded v =>
+    have := hst evs v w hw
+    subst this
+    simp [hx]
+  | stop => simp
+  | raised e => simp
+
+example : (run .sync (.withCm ⟨1, none, 2, none, 41, .none, {}⟩ a5 (.body 0 (.raises ⟨.exception, 7, none⟩))))
+    = ([.setup 1 a5, .bind 1 41, .body 0, .cleanup 1], .raised ⟨.exception, 7, none⟩) := by decide
+example : (run .async (.withCm ⟨1, none, 0, none, 41, .none, {}⟩ a5 (.body 0 .normal)))
+    = ([.setup 1 a5], .raised ⟨.runtimeError, 1002, some 1000⟩) := by decide
+
 /-! ## Nested and repeated use: journals compose (induction over depth / count) -/
 
 /-- the events of entering the managers `gs` from the outside in -/
 def opens (gs : List (UserGen × CallArgs)) : List Ev :=
   gs.flatMap (fun ga => [.setup ga.1.tag ga.2, .bind ga.1.tag ga.1.value])
-/-- their cleanups, innermost first -/
-def closes (gs : List (UserGen × CallArgs)) : List Ev := (gs.map (fun ga => Ev.cleanup ga.1.tag)).reverse
+/-- their cleanups (all the code after each generator's yield), innermost first -/
+def closes : List (UserGen × CallArgs) → List Ev
+  | [] => []
+  | (g, _) :: gs => closes gs ++ g.after.1
 /-- the cleanup exception of the outermost manager that has one -/
 def outermostCleanupExc : List (UserGen × CallArgs) → Option Exc
   | [] => none
-  | (g, _) :: gs => match g.cleanupExc with | some c => some c | none => outermostCleanupExc gs
+  | (g, _) :: gs => match g.after.2 with | some c => some c | none => outermostCleanupExc gs
 
 theorem spec_nest (gs : List (UserGen × CallArgs)) (inner : Prog) (hs : ∀ ga ∈ gs, ga.1.setupExc = none) :
     spec (nest gs inner) = (opens gs ++ (spec inner).1 ++ closes gs,
@@ -327,7 +715,7 @@ theorem spec_nest (gs : List (UserGen × CallArgs)) (inner : Prog) (hs : ∀ ga 
     have hg : g.setupExc = none := hs (g, a) (by simp)
     have ih' := ih (fun x hx => hs x (by simp [hx]))
     simp only [nest, spec, hg, ih', outermostCleanupExc]
-    cases hc : g.cleanupExc <;> simp [opens, closes]
+    cases hc : g.after.2 <;> simp [opens, closes]
 
 /-- **nested use, any depth**: `with g₀: with g₁: … with gₖ: inner` journals all setups/binds outside-in, then the block, then every
     cleanup exactly once in reverse order; the caller sees the outermost failing cleanup's exception, else what the block did -/
@@ -385,12 +773,12 @@ theorem repeated_use_stops (m : Mode) (pre : List Prog) (p : Prog) (post : List 
     run m (chain (pre ++ p :: post)) = ((pre.map (fun q => (spec q).1)).flatten ++ (spec p).1, (spec p).2) := by
   rw [run_eq_spec m _ (chain_docForm m _ hd) (chain_quirkFree m _ hq), spec_chain_stop pre p post hn hp]
 
-/-- `n` uses of the same manager one after the other: `n` copies of `[setup, bind, body, cleanup]` -/
+/-- `n` uses of the same manager one after the other: `n` copies of `[setup, bind, body] ++ <the code after the yield>` -/
 theorem repeated_same (m : Mode) (g : UserGen) (args : CallArgs) (k n : Nat) (hd : g.docForm m = true) (hf : args.fits = true)
-    (hs : g.setupExc = none) (hc : g.cleanupExc = none) :
+    (hs : g.setupExc = none) (hc : g.after.2 = none) :
     run m (chain (List.replicate n (.withCm g args (.body k .normal)))) =
-      ((List.replicate n [Ev.setup g.tag args, .bind g.tag g.value, .body k, .cleanup g.tag]).flatten ++ [.body 0], .normal) := by
-  have h1 : run m (.withCm g args (.body k .normal)) = ([Ev.setup g.tag args, .bind g.tag g.value, .body k, .cleanup g.tag], .normal) := by
+      ((List.replicate n ([Ev.setup g.tag args, .bind g.tag g.value, .body k] ++ g.after.1)).flatten ++ [.body 0], .normal) := by
+  have h1 : run m (.withCm g args (.body k .normal)) = ([Ev.setup g.tag args, .bind g.tag g.value, .body k] ++ g.after.1, .normal) := by
     rw [run_eq_spec m _ (by simp [Prog.docForm, hd, hf]) (by simp [Prog.quirkFree, hs, hc])]
     simp [spec, hs, hc, BodyOut.final]
   rw [repeated_use m _ (by intro p hp; rw [(List.mem_replicate.mp hp).2]; simp [Prog.docForm, hd, hf])
@@ -398,11 +786,12 @@ theorem repeated_same (m : Mode) (g : UserGen) (args : CallArgs) (k n : Nat) (hd
     (by intro p hp; rw [(List.mem_replicate.mp hp).2, h1])]
   simp [List.map_replicate, h1]
 
-/-- in every program, for every manager tag: as many cleanups as entered blocks (each entered block is cleaned up exactly once) -/
-theorem cleanups_match_entries (m : Mode) (p : Prog) (hd : p.docForm m = true) (hq : p.quirkFree m = true) (t : Nat) :
+/-- in every program, for every manager tag: as many cleanups as entered blocks (each entered block is cleaned up exactly once); no
+    `quirkFree` -/
+theorem cleanups_match_entries (m : Mode) (p : Prog) (hd : p.docForm m = true) (t : Nat) :
     count (Ev.isCleanup t) (run m p).1 = count (Ev.isBind t) (run m p).1 := by
-  rw [run_eq_spec m p hd hq]
-  clear hd hq
+  rw [run_journal_eq_spec m p hd]
+  clear hd
   induction p with
   | body n b => simp [spec, count, Ev.isCleanup, Ev.isBind]
   | seq p q ihp ihq =>
@@ -413,11 +802,13 @@ theorem cleanups_match_entries (m : Mode) (p : Prog) (hd : p.docForm m = true) (
     cases hs : g.setupExc with
     | some e => simp [count, Ev.isCleanup, Ev.isBind]
     | none =>
-      simp only [count, List.filter_append, List.length_append] at ih ⊢
+      have hca := count_after_cleanup g t
+      have hcb := count_after_bind g t
+      simp only [count, List.filter_append, List.length_append] at ih hca hcb ⊢
       by_cases ht : g.tag = t
-      · simp [List.filter, Ev.isCleanup, Ev.isBind, ht, ih]; omega
+      · simp [List.filter, Ev.isCleanup, Ev.isBind, ht, ih, hca, hcb]; omega
       · have : (g.tag == t) = false := by simpa using ht
-        simp [List.filter, Ev.isCleanup, Ev.isBind, this, ih]
+        simp [List.filter, Ev.isCleanup, Ev.isBind, this, ih, hca, hcb, ht]
 
 /-! ## Overlapping uses of ONE decorated manager (histories of enter / exit events, any interleaving) -/
 
@@ -543,7 +934,7 @@ theorem stepOp_eq_specOp (m : Mode) (us : List UseRec) (en : List (UserGen × Bo
       | true =>
         rw [hl] at hget
         obtain ⟨hat, hd⟩ := hlive i r hu hl
-        have hq : ∀ c e, r.g.cleanupExc = some c → fin = .raised e → quirk m c e = false := by
+        have hq : ∀ c e, r.g.after.2 = some c → fin = .raised e → quirk m c e = false := by
           intro c e hc hf
           have := hok.1
           simp only [hget, hf, hc] at this
@@ -551,7 +942,7 @@ theorem stepOp_eq_specOp (m : Mode) (us : List UseRec) (en : List (UserGen × Bo
         have hx := exitWith_doc m r.g r.recv r.fresh fin hd hq
         rw [← hat] at hx
         simp only [stepOp, specOp, target_own, hu, hget, hl, hx]
-        refine ⟨by simp, by cases r.g.cleanupExc <;> simp, ?_, ?_⟩
+        refine ⟨by simp, by cases r.g.after.2 <;> simp, ?_, ?_⟩
         · rw [hen]
           apply List.ext_getElem?
           intro j
@@ -595,9 +986,9 @@ theorem hist_eq_spec_initial (m : Mode) (ops : List Op) (hok : histOk m [] ops =
 
 /-! ## Non-vacuity: concrete instances that meet the hypotheses -/
 
-def gOk (t : Nat) : UserGen := ⟨t, none, 1, none, 40 + t, .none⟩
-def gCleanupFails (t : Nat) : UserGen := ⟨t, none, 1, some ⟨.baseExc, 90 + t, none⟩, 40 + t, .none⟩
-def gSetupFails (t : Nat) : UserGen := ⟨t, some ⟨.cancelled, 80 + t, none⟩, 1, none, 40 + t, .none⟩
+def gOk (t : Nat) : UserGen := ⟨t, none, 1, none, 40 + t, .none, {}⟩
+def gCleanupFails (t : Nat) : UserGen := ⟨t, none, 1, some ⟨.baseExc, 90 + t, none⟩, 40 + t, .none, {}⟩
+def gSetupFails (t : Nat) : UserGen := ⟨t, some ⟨.cancelled, 80 + t, none⟩, 1, none, 40 + t, .none, {}⟩
 
 -- the body raises KeyboardInterrupt-like object 7 / GeneratorExit / StopIteration / StopAsyncIteration: cleanup once, same object out
 example : run .sync (.withCm (gOk 1) a5 (.body 0 (.raises ⟨.baseExc, 7, none⟩)))
